@@ -730,7 +730,8 @@ pub fn check_transition<const N: usize>(
                         out.push(Finding::new("add-changed-present", &["C04"], format!("{} on a present vertex changed what v_print shows from {before:?} to {after:?}", op.text())));
                     }
                 }
-                if let Some(g0) = g0 {
+                // (reading everything is quadratic in the size of the graph: graphs of up to 300 vertices)
+                if let Some(g0) = g0.filter(|_| m0.present.len() <= 300) {
                     for desc in [false, true] {
                         let (Some(before), Some(after)) = (drain_trace(g0, &m0.keys(), desc), drain_trace(g1, &m0.keys(), desc)) else { break };
                         if before != after {
@@ -828,6 +829,52 @@ pub fn step_nocheck<const N: usize>(g: &mut Sodg<N>, m: &mut Model, op: &Op) -> 
     // methods are part of what the next call meets)
     observe(g, m);
     r
+}
+
+/// A Rust value may be moved; where a graph lives says nothing about which graph it is. Between the
+/// call and the questions about it, ANOTHER graph (same vertices, every edge pointing elsewhere,
+/// other data) is swapped into the very place, asked the same questions, and swapped out again: an
+/// answer remembered under the address of the object would now be the other graph's. Small graphs only.
+pub fn decoy_at_the_same_address<const N: usize>(g: &mut Sodg<N>, m: &Model, labels: &[u8]) {
+    if m.cap > 16 || m.present.is_empty() {
+        return;
+    }
+    let keys = m.keys();
+    let made = guarded(|| {
+        let mut d: Sodg<N> = Sodg::empty(m.cap);
+        for v in &keys {
+            d.add(*v);
+        }
+        if keys.len() >= 2 {
+            for (i, v) in keys.iter().enumerate() {
+                for (j, l) in labels.iter().take(N).enumerate() {
+                    // a target the real graph is unlikely to have under this label: rotate by label index
+                    let t = keys[(i + 1 + j) % keys.len()];
+                    if t != *v {
+                        d.bind(*v, t, lab(*l));
+                    }
+                }
+            }
+        }
+        for v in &keys {
+            d.put(*v, &crate::menu::dat(3));
+        }
+        d
+    });
+    let Ok(mut d) = made else { return };
+    std::mem::swap(g, &mut d);
+    // `g` now holds the decoy, at the address the real graph had
+    let _ = guarded(|| {
+        for v in &keys {
+            let _ = kids_of(g, *v).len();
+            for l in labels {
+                let _ = g.kid(*v, lab(*l));
+            }
+            let _ = g.v_print(*v).map(|t| t.len());
+        }
+        let _ = (g.keys().len(), g.len(), g.is_empty());
+    });
+    std::mem::swap(g, &mut d);
 }
 
 /// Which further read-only calls follow every step of a history (bit set from the probes of the
@@ -982,6 +1029,7 @@ pub fn step<const N: usize>(labels: &[u8], g: &mut Sodg<N>, m: &mut Model, op: &
         (_, Ok(_)) => ex = m.apply(op),
         (_, Err(_)) => {}
     }
+    decoy_at_the_same_address(g, m, labels);
     let f = check_transition(labels, &m0, g0.as_ref(), op, &res, g, m, &ex, &errs);
     if f.is_empty() {
         observe(g, m);
